@@ -65,7 +65,7 @@ def family_programs(ctx, quick):
         designs = designs[::8]
     for d in designs:
         out.append((d, "plain", "security:%s" % d["api"]["name"]))
-    for g in ("G1", "G2", "G3", "G4", "G5", "G6", "G7", "G8"):
+    for g in ("G1", "G2", "G3", "G4", "G5", "G6", "G7", "G8", "G9", "G10"):
         out.append((c08.design(g), "views/recursive-result-type" if g == "G4" else "plain", "views:" + g))
     return out + container_programs()
 
